@@ -28,8 +28,68 @@ LEVEL_TEXT = ("Coq theorems: every pinned documented layout is what the regenera
               "by the translator (tables regenerated each run) and the extraction-based correspondence on fields and whole lines.")
 
 
+XPAIRS = [("gdc-1.0.0-aliquot-merged", "gdc-1.0.0-aliquot-merged-masked"), ("gdc-2.0.0-aliquot-merged", "gdc-2.0.0-aliquot-merged-masked"),
+          ("gdc-1.0.0-aliquot-merged-masked", "gdc-1.0.0-aliquot-merged"), ("gdc-2.0.0-aliquot-merged-masked", "gdc-2.0.0-aliquot-merged")]
+
+
+def _gen_xval(rng):
+    """a line accepted under one layout, the record then validated against a sibling layout with the same column names
+    (record.validate(scheme=...)): it must be accepted there exactly when the line conforms to THAT layout, although every
+    column object carries the class of the layout it was parsed under"""
+    a, b = rng.choice(XPAIRS)
+    cols = SP.layout(a)["columns"]
+    fields = [G.valid_text(rng, d).replace("\t", " ").replace("\n", " ").replace("\r", " ") for _, d in cols]
+    return {"kind": "xval", "annot": a, "against": b, "fields": fields, "mode": rng.choice([1, 2, 3]), "stream": "cross-validate", "hit": [0]}
+
+
+def _run_xval(case):
+    from maflib.record import MafRecord
+    from maflib.validation import ValidationStringency, MafFormatException
+    sa, sb = G._scheme_for(case["annot"]), G._scheme_for(case["against"])
+    names = sb.column_names()
+    out = {"parsed": None, "raised": None, "errors": None}
+    try:
+        rec = MafRecord.from_line("\t".join(case["fields"]), scheme=sa, validation_stringency=ValidationStringency.Silent)
+        out["parsed"] = len(rec.validation_errors) == 0 and len(rec) == len(names)
+        try:
+            errs = rec.validate(validation_stringency=getattr(ValidationStringency, G.MODES[case["mode"]]), scheme=sb, reset_errors=True)
+            out["errors"] = H.enc_errors(errs, names)
+        except MafFormatException as e:
+            out["raised"] = ["MafFormatException", e.tpe.name]
+    except Exception as e:
+        out["raised"] = [type(e).__name__, str(e)[:100]]
+    return {"cmp": {"xval": True}, "extra": out}
+
+
+def _oracle_xval(case, obs):
+    ex = obs["extra"]
+    if not ex["parsed"]:
+        return []
+    cols_b = SP.layout(case["against"])["columns"]
+    bad = [n for (n, d), t in zip(cols_b, case["fields"]) if SP.zone(d, t)[0] == "reject"]
+    dc = [n for (n, d), t in zip(cols_b, case["fields"]) if SP.zone(d, t)[0] == "dontcare"]
+    out = []
+    rejected = ex["raised"] is not None or bool(ex["errors"])
+    if ex["raised"] is not None and ex["raised"][0] != "MafFormatException":
+        out.append("revalidation-raised-other-exception | %s" % ex["raised"])
+    if bad and not rejected:
+        out.append("record-not-conforming-to-the-scheme-validates-against-it | columns %s of %s" % (bad[:3], case["against"]))
+    if bad and case["mode"] == 1 and ex["raised"] is None:
+        out.append("strict-revalidation-did-not-raise | columns %s" % bad[:3])
+    if case["mode"] != 1 and ex["raised"] is not None:
+        out.append("non-strict-revalidation-raised | %s" % ex["raised"])
+    if not bad and not dc and rejected:
+        out.append("conforming-record-rejected-on-revalidation | %s %s" % (ex["raised"], (ex["errors"] or [])[:2]))
+    if ex["errors"]:
+        for n in bad:
+            if not any(e[2] == n for e in ex["errors"]):
+                out.append("non-conforming-column-not-reported-on-revalidation | %s" % n)
+    return out
+
+
 def generate(rng, n):
-    return G.gen_cases(rng, n, modes=True)
+    k = max(1, n // 60)
+    return G.gen_cases(rng, n - k, modes=True) + [_gen_xval(rng) for _ in range(k)]
 
 
 def corpus():
@@ -37,23 +97,23 @@ def corpus():
 
 
 def skip_compare(case):
-    return G.model_dontcare(case)
+    return case["kind"] == "xval" or G.model_dontcare(case)
 
 
 def shrink(case):
-    return G.shrink(case)
+    return iter(()) if case["kind"] == "xval" else G.shrink(case)
 
 
 def to_model(case):
-    return G.to_model(case)
+    return [4] if case["kind"] == "xval" else G.to_model(case)
 
 
 def from_model(case, sx):
-    return G.from_model(case, sx)
+    return {"xval": True} if case["kind"] == "xval" else G.from_model(case, sx)
 
 
 def run_impl(case):
-    return G.run_impl(case)
+    return _run_xval(case) if case["kind"] == "xval" else G.run_impl(case)
 
 
 def comparable(obs):
@@ -61,7 +121,7 @@ def comparable(obs):
 
 
 def oracle(case, obs):
-    return G.oracle_c01(case, obs)
+    return _oracle_xval(case, obs) if case["kind"] == "xval" else G.oracle_c01(case, obs)
 
 
 def signature(case, violation):
@@ -69,11 +129,13 @@ def signature(case, violation):
 
 
 def classify(case, obs):
+    if case["kind"] == "xval":
+        return "xval/%s->%s/mode=%s" % (case["annot"], case["against"], G.MODES[case["mode"]])
     return G.classify(case, obs)
 
 
 def nontrivial(case, obs):
-    return not G.model_dontcare(case)
+    return case["kind"] == "xval" or not G.model_dontcare(case)
 
 
 def focus(changed):
